@@ -81,9 +81,10 @@ Definition static_code (c : fcase) : Z :=
 
 (* (checker model accepts, first documented rule broken (0 none), predicted build verdict,
     grouping, int fallback, constant overflow) *)
-Definition c02_case (c : fcase) : bool * Z * Z * (bool * bool * bool * bool) :=
-  (check_fn c, static_code c, build_model c,
+Definition c02_case_gen (ev : bool) (c : fcase) : bool * Z * Z * (bool * bool * bool * bool) :=
+  (check_fn_gen ev c, static_code c, build_model c,
    (known_grouping c, known_int_fallback c, known_const_overflow c, only_in_elif c)).
+Definition c02_case := c02_case_gen false.
 
 (* witnesses: functions the checker model accepts and that do not build *)
 Definition fn0 (l : list stmt) : fcase := {| params := []; args := []; body := blk l |}.
